@@ -4,7 +4,7 @@ disjointness and external consistency follow from the request-stream rules + sto
 of begin/get/batch-get/scan/set/insert/delete/lock-keys/commit/rollback over shared keys (driver `txn`, program mode,
 unistore), interleaved at API-call granularity with commits running concurrently, splits, all commit modes x
 {optimistic, pessimistic}; every read is replayed against the timestamp-ordered committed history (MVCC dump)."""
-import os, time, json, random
+import os, sys, time, json, random
 import vlib, txnlab
 from vlib import Verdict
 
@@ -301,6 +301,7 @@ def coq_oracle_diff(mexe, items):
 
 
 def main(tier, replay):
+    sys.path.insert(0, os.path.dirname(os.path.abspath(__file__)))
     t0 = time.time()
     v = Verdict(PID)
     rng = random.Random(vlib.SEED)
@@ -366,6 +367,27 @@ def main(tier, replay):
         cov.update(coq_oracle_reads=nread, coq_oracle_disagreements=len(dis))
         for d in dis[:3]:
             v.violation({"kind": "oracle-differential", "correspondence": "python si_history_ok read check vs extracted Coq obs_ok (C01_history_oracle_sound)", "detail": d}, has_input=False)
+    if okm:
+        # resolver status cache: getTxnStatus across calls vs the extracted glue model (own module checks/C01_status.py)
+        import importlib.util
+        _sp = importlib.util.spec_from_file_location("C01_status", os.path.join(os.path.dirname(os.path.abspath(__file__)), "C01_status.py"))
+        C01_status = importlib.util.module_from_spec(_sp); _sp.loader.exec_module(C01_status)
+        C01_status.differential(v, cov, mexe, rng, tier)
+    # resolver status cache across transactions of one client (stale resolve): "an acknowledged commit is on every key it wrote" and
+    # the extracted Percolator acceptor (rule 3: a lock is rolled back only on a status answer that says rolled back)
+    import perc_progs
+    from perc_gate import run_acceptor
+    srp = perc_progs.stale_resolve_programs(random.Random(vlib.SEED * 31 + 7), 8 if tier == "quick" else 80)
+    sr_traces = []
+    for sc, r in zip(srp, txnlab.run_scenarios(exe, srp)):
+        if r.get("fatal"):
+            continue
+        sr_traces.append((sc, r))
+        bad = perc_progs.acked_commit_lost(sc, r)
+        if bad:
+            v.violation({"kind": "property-oracle", "scenario": sc, "violated": bad[:4], "txns": r.get("txns")})
+    acov = run_acceptor(sr_traces, v, PID, exe=exe)
+    cov.update(stale_resolve_programs=len(sr_traces), stale_resolve_acceptor={k: acov.get(k) for k in ("acceptor_accepted", "acceptor_rejected", "acceptor_reject_reasons")})
     cov["traces_validated_against_impl"] = len(traces)
     cov.update(evaluations=len(scs), distinct_nontrivial=len(distinct), reads_checked=reads,
                rule="random histories: 2-5 transactions (each optimistic or pessimistic, 2pc / async / 1pc / async+1pc) over 6 shared keys, 12-34 API steps (get, batch-get, scan, reverse scan, set, insert, delete, lock-keys with return values, commit (35% running concurrently with the following steps), rollback), 0-3 region splits up front and splits in between; oracle si_history_ok: every read vs the ts-ordered committed history from MvccGetByKey, own writes, locking reads at for-update ts, write-write disjointness, insert semantics, invisibility of failed transactions, external consistency; distinct non-trivial = distinct programs with >= 2 committed transactions",
